@@ -794,6 +794,10 @@ func (ctx Ctx) callExpr(s *ast.CallExpr) coq.Expr {
 		if signature, ok := ctx.typeOf(s.Fun).(*types.Signature); ok {
 			for j := 0; j < signature.Params().Len(); j++ {
 				if _, ok := signature.Params().At(j).Type().Underlying().(*types.Interface); ok {
+					if j > 0 {
+						// the conversion below is applied to the first argument
+						ctx.unsupported(s, "interface-typed parameter that is not the first parameter")
+					}
 					interfaceName := signature.Params().At(j).Type().String()
 					structName := ctx.typeOf(s.Args[0]).String()
 					interfaceName = unqualifyName(interfaceName)
